@@ -41,6 +41,11 @@ AYf == [simple |-> {Eff, Y(VarA), PullIt, YFromIt} \cup YFs,
         ifinits |-> {None}, kinds |-> {"if", "switch", "for"}, jumps |-> {"break", "continue"}, ranges |-> {}]
 \* delegation family without the recursive delegate: bounded delegation depth (C17 loop cases)
 YFsL == {YF(g, arg) : g \in 2..3, arg \in {[k |-> "lit", v |-> 1], VarA}}
+\* independence of iterators held by ONE generator (C14): the local iterator `it`, delegates created by
+\* YieldFrom, and a second iterator it2 created in a later step; hand pulls of `it` also after its exhaustion
+AIndep == [simple |-> {PullIt, YFromIt, [k |-> "mk2"], Y(VarA), YF(2, [k |-> "lit", v |-> 1])},
+           inits |-> {None}, posts |-> {None}, conds |-> {T0}, ifinits |-> {None},
+           kinds |-> {"if"}, jumps |-> {}, ranges |-> {}]
 AYfL == [AYf EXCEPT !.simple = {Eff, IncA, Y(VarA)} \cup YFsL, !.posts = {None} \cup YFsL]
 \* transformer generators (C06): a generator that ranges over the local iterator `it` (instance 2) and yields
 \* from inside the loop, also inside a switch clause, with break / continue / return and pulls by hand
@@ -140,7 +145,7 @@ ARScope == [ARange EXCEPT !.simple = {Y(VarK), Y(VarV)},
                           !.ranges = {RangeHdr("slice", "var", f[1], f[2]) :
                                         f \in {<<"asg", "asg">>, <<"blank", "asg">>, <<"asg", "none">>, <<"def", "def">>, <<"blank", "def">>}}]
 ARangeX == [ARange EXCEPT !.simple = @ \cup {Mut("nset", 0), Mut("strset", 0), Mut("sset", 0), Mut("aset", 0)}]
-A == CASE Family = "range" -> ARange [] Family = "rscope" -> ARScope [] Family = "rangex" -> ARangeX [] Family = "ctl" -> ACtl [] Family = "scope" -> AScope [] Family = "yf" -> AYf [] Family = "xf" -> AXf [] Family = "yfl" -> AYfL [] Family = "panic" -> APanic [] Family = "ctlx" -> ACtlX [] Family = "eff" -> AEff [] Family = "expr" -> AExpr [] Family = "jump" -> AJump [] Family = "opt" -> AOpt [] Family = "by" -> ABy [] Family = "optx" -> AOptX [] Family = "byx" -> AByX [] Family = "unsup" -> AUnsup [] Family = "box" -> ABox [] Family = "lit" -> ALit
+A == CASE Family = "range" -> ARange [] Family = "rscope" -> ARScope [] Family = "rangex" -> ARangeX [] Family = "ctl" -> ACtl [] Family = "scope" -> AScope [] Family = "yf" -> AYf [] Family = "xf" -> AXf [] Family = "indep" -> AIndep [] Family = "yfl" -> AYfL [] Family = "panic" -> APanic [] Family = "ctlx" -> ACtlX [] Family = "eff" -> AEff [] Family = "expr" -> AExpr [] Family = "jump" -> AJump [] Family = "opt" -> AOpt [] Family = "by" -> ABy [] Family = "optx" -> AOptX [] Family = "byx" -> AByX [] Family = "unsup" -> AUnsup [] Family = "box" -> ABox [] Family = "lit" -> ALit
 
 \* Go scoping: `a := ...` at most once per block and never in the function's top block
 \* (a is a parameter there: "no new variables on left side of :=")
@@ -203,7 +208,7 @@ vars == <<prog, tape0, plen, w, wb, calls, obs, obsB>>
 
 Start(p, tape, flags) ==
   LET w1 == Spawn(MW0(<<p, D2, D3, D4>>, tape, Budget, flags), 1, 0, 2).w IN
-  IF Family \in {"yf", "xf"} THEN Spawn(w1, 2, 3, 2).w ELSE w1      \* yf: instance 2 is the local iterator  it := D2(r, 3, b)
+  IF Family \in {"yf", "xf", "indep"} THEN Spawn(w1, 2, 3, 2).w ELSE w1      \* yf: instance 2 is the local iterator  it := D2(r, 3, b)
 Init == /\ \/ \E raw \in Small : \E fin \in Finish(raw) : prog = Label(fin)
            \/ (Lazy /\ \E raw \in {0} : FALSE)   \* (keeps TLC's Init shape uniform)
            \/ (Lazy /\ LET B(m, ctx) == Tab[m + 1].B[ctx] IN
